@@ -14,12 +14,16 @@ Definition changes (a : action) : bool :=
   end.
 Definition noch (s : pstate) : Prop := existsb changes (ps_actions s) = false.
 Definition api4 (w : jworld) := (api_job w, api_rv w, api_pods w, pod_scheduled w).
+(** everything but the list of failures still to be injected *)
+Definition core (w : jworld) :=
+  (api_job w, api_rv w, api_pods w, pod_scheduled w, cache_job w, cache_rv w, job_pending w, cache_pods w, pod_pending w, clock w).
+Definition fr (s : pstate) := (core (ps_w s), ps_del_events s).
 
 Lemma noch_add s a : noch (add_action s a) -> changes a = false /\ noch s.
 Proof. unfold noch. simpl. intros H. apply orb_false_iff in H. exact H. Qed.
 
 Lemma sync_create_task_noop s j tasks h retry s' j' t' res :
-  sync_create_task s j tasks h retry = (s', j', t', res) -> noch s' -> api4 (ps_w s') = api4 (ps_w s) /\ noch s.
+  sync_create_task s j tasks h retry = (s', j', t', res) -> noch s' -> fr s' = fr s /\ noch s.
 Proof.
   unfold sync_create_task. intros H Hn.
   destruct (take_fault FCreatePod _); [injection H as <- _ _ _; apply noch_add in Hn as [_ Hn]; auto|].
@@ -30,7 +34,7 @@ Proof.
 Qed.
 
 Lemma create_loop_noop reqs : forall s j tasks now s' j' t' res,
-  create_loop s j tasks reqs now = (s', j', t', res) -> noch s' -> api4 (ps_w s') = api4 (ps_w s) /\ noch s.
+  create_loop s j tasks reqs now = (s', j', t', res) -> noch s' -> fr s' = fr s /\ noch s.
 Proof.
   induction reqs as [|rq r IH]; intros s j tasks now s' j' t' res; simpl.
   - intros [= <- _ _ _]. auto.
@@ -41,14 +45,14 @@ Proof.
     + injection H as <- _ _ _. eapply sync_create_task_noop; eauto.
 Qed.
 
-Lemma sync_status_noop now s j s' j' : sync_status now s j = (s', j') -> ps_w s' = ps_w s /\ ps_actions s' = ps_actions s.
+Lemma sync_status_noop now s j s' j' : sync_status now s j = (s', j') -> fr s' = fr s /\ ps_actions s' = ps_actions s.
 Proof. unfold sync_status. intros [= <- _]. destruct (ttl_arms _); auto. Qed.
 
 Lemma noch_same s s' : ps_actions s' = ps_actions s -> noch s' -> noch s.
 Proof. unfold noch. now intros ->. Qed.
 
 Lemma sync_create_tasks_noop s j tasks now s' j' t' res :
-  sync_create_tasks s j tasks now = (s', j', t', res) -> noch s' -> api4 (ps_w s') = api4 (ps_w s) /\ noch s.
+  sync_create_tasks s j tasks now = (s', j', t', res) -> noch s' -> fr s' = fr s /\ noch s.
 Proof.
   unfold sync_create_tasks. intros H Hn. revert H.
   destruct (negb (can_create_task j)); [intros [= <- _ _ _]; auto|].
@@ -63,15 +67,15 @@ Proof.
   - intros [= <- _ _ _]. eapply create_loop_noop; eauto.
 Qed.
 
-Lemma api_delete_pod_fail w n f w' out evs : api_delete_pod w n f = (w', out, evs) -> out <> 0 -> w' = w.
+Lemma api_delete_pod_fail w n f w' out evs : api_delete_pod w n f = (w', out, evs) -> out <> 0 -> w' = w /\ evs = [].
 Proof.
-  unfold api_delete_pod. destruct (find_pod n (api_pods w)) as [p|]; [|now intros [= <- _ _]].
+  unfold api_delete_pod. destruct (find_pod n (api_pods w)) as [p|]; [|now intros [= <- _ <-]].
   destruct (f || negb (mem_str n (pod_scheduled w))); [intros [= _ <- _] H; congruence|].
   destruct (p_deletion p); intros [= E1 E2 _] H; congruence.
 Qed.
 
 Lemma delete_tasks_ordered_noop tasks : forall s force now s' ok,
-  delete_tasks_ordered s tasks force now = (s', ok) -> noch s' -> api4 (ps_w s') = api4 (ps_w s) /\ noch s.
+  delete_tasks_ordered s tasks force now = (s', ok) -> noch s' -> fr s' = fr s /\ noch s.
 Proof.
   induction tasks as [|p r IH]; intros s force now s' ok; simpl.
   - intros [= <- _]. auto.
@@ -82,18 +86,18 @@ Proof.
     + destruct (api_delete_pod (ps_w s) (p_name p) force) as [[w' out] evs] eqn:Ed. intros H Hn.
       destruct (IH _ _ _ _ _ H Hn) as [A N]. unfold noch in N. simpl in N. apply orb_false_iff in N as [Nc N].
       assert (Ho : out <> 0) by (intros ->; discriminate Nc).
-      apply (api_delete_pod_fail _ _ _ _ _ _ Ed) in Ho. subst w'. simpl in A. split; [exact A|exact N].
+      apply (api_delete_pod_fail _ _ _ _ _ _ Ed) in Ho as [-> ->]. unfold fr in A. simpl in A. rewrite app_nil_r in A. split; [exact A|exact N].
 Qed.
 Lemma delete_tasks_noop s tasks force now s' ok :
-  delete_tasks s tasks force now = (s', ok) -> noch s' -> api4 (ps_w s') = api4 (ps_w s) /\ noch s.
+  delete_tasks s tasks force now = (s', ok) -> noch s' -> fr s' = fr s /\ noch s.
 Proof. apply delete_tasks_ordered_noop. Qed.
 
-Lemma arm_list_w {A} (l : list A) s : ps_w (match l with [] => s | _ :: _ => arm s end) = ps_w s /\
+Lemma arm_list_w {A} (l : list A) s : fr (match l with [] => s | _ :: _ => arm s end) = fr s /\
                                      ps_actions (match l with [] => s | _ :: _ => arm s end) = ps_actions s.
 Proof. destruct l; auto. Qed.
 
 Lemma handle_pending_noop cfg s j tasks now s' j' ok :
-  handle_pending cfg s j tasks now = (s', j', ok) -> noch s' -> api4 (ps_w s') = api4 (ps_w s) /\ noch s.
+  handle_pending cfg s j tasks now = (s', j', ok) -> noch s' -> fr s' = fr s /\ noch s.
 Proof.
   unfold handle_pending. destruct (pending_timeout cfg j <=? 0); [intros [= <- _ _]; auto|].
   set (nd := filter (fun p => now <? p_created p + pending_timeout cfg j) _).
@@ -106,7 +110,7 @@ Proof.
 Qed.
 
 Lemma handle_kill_noop s j tasks now s' j' ok :
-  handle_kill s j tasks now = (s', j', ok) -> noch s' -> api4 (ps_w s') = api4 (ps_w s) /\ noch s.
+  handle_kill s j tasks now = (s', j', ok) -> noch s' -> fr s' = fr s /\ noch s.
 Proof.
   unfold handle_kill. destruct (negb (should_kill now j)); [intros [= <- _ _]; auto|].
   destruct (filter _ tasks) as [|p r]; [intros [= <- _ _]; auto|].
@@ -114,7 +118,7 @@ Proof.
 Qed.
 
 Lemma handle_force_noop cfg s j tasks now s' j' ok :
-  handle_force cfg s j tasks now = (s', j', ok) -> noch s' -> api4 (ps_w s') = api4 (ps_w s) /\ noch s.
+  handle_force cfg s j tasks now = (s', j', ok) -> noch s' -> fr s' = fr s /\ noch s.
 Proof.
   unfold handle_force. destruct (force_timeout cfg <=? 0); [intros [= <- _ _]; auto|].
   destruct (j_forbid_force j); [intros [= <- _ _]; auto|].
@@ -129,24 +133,24 @@ Proof.
 Qed.
 
 Lemma sync_job_tasks_noop cfg s j now s' j' ok :
-  sync_job_tasks cfg s j now = (s', j', ok) -> noch s' -> api4 (ps_w s') = api4 (ps_w s) /\ noch s.
+  sync_job_tasks cfg s j now = (s', j', ok) -> noch s' -> fr s' = fr s /\ noch s.
 Proof.
   unfold sync_job_tasks. set (tasks := flat_map _ (j_tasks j)). intros H Hn.
   destruct (sync_create_tasks s j tasks now) as [[[s1 j1] t1] [|]] eqn:E1;
     [|injection H as <- _ _; eapply sync_create_tasks_noop; eauto].
   destruct (sync_status_refs now s1 j1 t1) as [s2 j2] eqn:E2. apply sync_status_noop in E2 as [W2 A2].
   destruct (handle_pending cfg s2 j2 t1 now) as [[s3 j3] ok3] eqn:E3.
-  assert (Chain3 : noch s3 -> api4 (ps_w s3) = api4 (ps_w s) /\ noch s).
+  assert (Chain3 : noch s3 -> fr s3 = fr s /\ noch s).
   { intros N3. destruct (handle_pending_noop _ _ _ _ _ _ _ _ E3 N3) as [A3 N2].
     assert (N1 : noch s1) by (eapply noch_same; eauto).
     destruct (sync_create_tasks_noop _ _ _ _ _ _ _ _ E1 N1) as [A1 N0]. split; [congruence|exact N0]. }
   destruct (negb ok3); [injection H as <- _ _; auto|].
   destruct (handle_kill s3 j3 t1 now) as [[s4 j4] ok4] eqn:E4.
-  assert (Chain4 : noch s4 -> api4 (ps_w s4) = api4 (ps_w s) /\ noch s).
+  assert (Chain4 : noch s4 -> fr s4 = fr s /\ noch s).
   { intros N4. destruct (handle_kill_noop _ _ _ _ _ _ _ E4 N4) as [A4 N3]. destruct (Chain3 N3). split; [congruence|auto]. }
   destruct (negb ok4); [injection H as <- _ _; auto|].
   destruct (handle_force cfg s4 j4 t1 now) as [[s5 j5] ok5] eqn:E5.
-  assert (Chain5 : noch s5 -> api4 (ps_w s5) = api4 (ps_w s) /\ noch s).
+  assert (Chain5 : noch s5 -> fr s5 = fr s /\ noch s).
   { intros N5. destruct (handle_force_noop _ _ _ _ _ _ _ _ E5 N5) as [A5 N4]. destruct (Chain4 N4). split; [congruence|auto]. }
   destruct (negb ok5); [injection H as <- _ _; auto|].
   destruct (sync_status_refs now s5 j5 t1) as [s6 j6] eqn:E6. apply sync_status_noop in E6 as [W6 A6].
@@ -155,7 +159,7 @@ Proof.
 Qed.
 
 Lemma handle_finalizer_noop s j now s' j' ok :
-  handle_finalizer s j now = (s', j', ok) -> noch s' -> api4 (ps_w s') = api4 (ps_w s) /\ noch s.
+  handle_finalizer s j now = (s', j', ok) -> noch s' -> fr s' = fr s /\ noch s.
 Proof.
   unfold handle_finalizer. destruct (j_deletion j); [|intros [= <- _ _]; auto].
   destruct (negb (j_finalizer j)); [intros [= <- _ _]; auto|].
@@ -174,7 +178,7 @@ Proof.
 Qed.
 
 Lemma handle_ttl_noop cfg s j now s' ok :
-  handle_ttl cfg s j now = (s', ok) -> noch s' -> api4 (ps_w s') = api4 (ps_w s) /\ noch s.
+  handle_ttl cfg s j now = (s', ok) -> noch s' -> fr s' = fr s /\ noch s.
 Proof.
   unfold handle_ttl. destruct (j_deletion j); [intros [= <- _]; auto|].
   destruct (j_cond j); try (intros [= <- _]; auto).
@@ -186,23 +190,23 @@ Proof.
 Qed.
 
 Lemma sync_noop cfg s j now s' j' ok :
-  sync cfg s j now = (s', j', ok) -> noch s' -> api4 (ps_w s') = api4 (ps_w s) /\ noch s.
+  sync cfg s j now = (s', j', ok) -> noch s' -> fr s' = fr s /\ noch s.
 Proof.
   unfold sync. intros H Hn.
   destruct (match j_start j, j_deletion j with Some _, None => sync_job_tasks cfg s j now | _, _ => (s, j, true) end)
     as [[s1 j1] ok1] eqn:E1.
-  assert (C1 : noch s1 -> api4 (ps_w s1) = api4 (ps_w s) /\ noch s).
+  assert (C1 : noch s1 -> fr s1 = fr s /\ noch s).
   { intros N1. destruct (j_start j); [destruct (j_deletion j)|]; try (injection E1 as <- _ _; auto).
     eapply sync_job_tasks_noop; eauto. }
   destruct (negb ok1); [injection H as <- _ _; auto|].
   destruct (sync_status now s1 j1) as [s2 j2] eqn:E2. apply sync_status_noop in E2 as [W2 A2].
   destruct (handle_ttl cfg s2 j2 now) as [s3 ok3] eqn:E3.
-  assert (C3 : noch s3 -> api4 (ps_w s3) = api4 (ps_w s) /\ noch s).
+  assert (C3 : noch s3 -> fr s3 = fr s /\ noch s).
   { intros N3. destruct (handle_ttl_noop _ _ _ _ _ _ E3 N3) as [A3 N2]. assert (N1 : noch s1) by (eapply noch_same; eauto).
     destruct (C1 N1). split; [congruence|auto]. }
   destruct (negb ok3); [injection H as <- _ _; auto|].
   destruct (handle_finalizer s3 j2 now) as [[s4 j4] ok4] eqn:E4.
-  assert (C4 : noch s4 -> api4 (ps_w s4) = api4 (ps_w s) /\ noch s).
+  assert (C4 : noch s4 -> fr s4 = fr s /\ noch s).
   { intros N4. destruct (handle_finalizer_noop _ _ _ _ _ _ E4 N4) as [A4 N3]. destruct (C3 N3). split; [congruence|auto]. }
   destruct (negb ok4); injection H as <- _ _; auto.
 Qed.
@@ -219,9 +223,12 @@ Proof.
   destruct (negb (rv =? api_rv w)); [now intros [= <- _]|]. intros [= E1 E2] H; congruence.
 Qed.
 
-Lemma end_pass_api4 s : api4 (end_pass s) = api4 (ps_w s).
+Lemma end_pass_core s : ps_del_events s = [] -> core (end_pass s) = core (ps_w s).
 Proof.
-  unfold end_pass. destruct (existsb _ _); [|reflexivity]. destruct (take_fault FDeletePod _); reflexivity.
+  intros Hd. unfold end_pass. rewrite Hd.
+  assert (E : core (upd_pods (ps_w s) (api_pods (ps_w s)) (pod_scheduled (ps_w s)) (sort_evs []) (faults (ps_w s))) = core (ps_w s)).
+  { unfold core, upd_pods. cbn. now rewrite app_nil_r. }
+  destruct (existsb _ _); [|exact E]. destruct (take_fault FDeletePod _); exact E.
 Qed.
 
 Lemma existsb_rev {A} (f : A -> bool) l : existsb f (rev l) = existsb f l.
@@ -229,16 +236,18 @@ Proof.
   induction l as [|a l IH]; [reflexivity|]. simpl. rewrite existsb_app, IH. simpl. rewrite orb_false_r. apply orb_comm.
 Qed.
 
-(** the pass *)
+(** the pass: if every call failed, the world is what it was - only injected failures were
+    consumed *)
 Theorem failed_pass_changes_nothing cfg w w' acts ok armed :
-  sync_one cfg w = (w', acts, ok, armed) -> existsb changes acts = false -> api4 w' = api4 w.
+  sync_one cfg w = (w', acts, ok, armed) -> existsb changes acts = false -> core w' = core w.
 Proof.
   unfold sync_one. intros H Hn. destruct (cache_job w) as [j|]; [|injection H as <- _ _ _; reflexivity].
   destruct (sync cfg (mkPS w [] false []) j (clock w)) as [[s1 newj] ok1] eqn:Es.
   set (upd := if meta_eqb j newj then (s1, true) else _) in H.
   assert (Fin : forall s, ps_actions s = rev acts -> noch s).
   { intros s E. unfold noch. rewrite E. rewrite existsb_rev. exact Hn. }
-  assert (U : noch (fst upd) -> api4 (ps_w (fst upd)) = api4 w).
+  set (s0 := mkPS w [] false []) in *.
+  assert (U : noch (fst upd) -> fr (fst upd) = fr s0).
   { intros N. unfold upd in *. destruct (meta_eqb j newj).
     - simpl in *. destruct (sync_noop _ _ _ _ _ _ _ Es N) as [A _]. exact A.
     - destruct (take_fault FUpdateJob _).
@@ -246,17 +255,62 @@ Proof.
       + destruct (api_update_job (ps_w s1) newj (cache_rv w)) as [wu out] eqn:Eu. simpl in *.
         apply noch_add in N as [Hc N]. assert (Ho : out <> 0) by (intros ->; discriminate Hc).
         apply (api_update_job_fail _ _ _ _ _ Eu) in Ho. subst wu. destruct (sync_noop _ _ _ _ _ _ _ Es N) as [A _]. exact A. }
+  assert (Done : forall s, fr s = fr s0 -> core (end_pass s) = core w).
+  { intros s E. assert (E1 : core (ps_w s) = core w) by (change (fst (fr s) = fst (fr s0)); now rewrite E).
+    assert (E2 : ps_del_events s = []) by (change (snd (fr s) = snd (fr s0)); now rewrite E).
+    rewrite end_pass_core by exact E2. exact E1. }
   destruct upd as [s2 ok2]. simpl in U.
   destruct (negb ok2).
-  { injection H as <- Ea _ _. rewrite end_pass_api4. apply U. apply Fin. rewrite <- Ea. now rewrite rev_involutive. }
+  { injection H as <- Ea _ _. apply Done. apply U. apply Fin. rewrite <- Ea. now rewrite rev_involutive. }
   set (st := if status_eqb j newj then (s2, true) else _) in H.
-  assert (U3 : noch (fst st) -> api4 (ps_w (fst st)) = api4 w).
+  assert (U3 : noch (fst st) -> fr (fst st) = fr s0).
   { intros N. unfold st in *. destruct (status_eqb j newj); [exact (U N)|].
     destruct (take_fault FUpdateStatus _).
     - simpl in *. apply noch_add in N as [_ N]. exact (U N).
     - destruct (api_update_status (ps_w s2) newj (cache_rv w)) as [wu out] eqn:Eu. simpl in *.
       apply noch_add in N as [Hc N]. assert (Ho : out <> 0) by (intros ->; discriminate Hc).
       apply (api_update_status_fail _ _ _ _ _ Eu) in Ho. subst wu. exact (U N). }
-  destruct st as [s3 ok3]. simpl in U3. injection H as <- Ea _ _. rewrite end_pass_api4. apply U3. apply Fin.
+  destruct st as [s3 ok3]. simpl in U3. injection H as <- Ea _ _. apply Done. apply U3. apply Fin.
   rewrite <- Ea. now rewrite rev_involutive.
+Qed.
+
+(** in words of worlds: the world after such a pass is the world before it with another list
+    of failures still to come *)
+Corollary failed_pass_world cfg w w' acts ok armed :
+  sync_one cfg w = (w', acts, ok, armed) -> existsb changes acts = false -> w' = set_faults w (faults w').
+Proof.
+  intros H Hn. pose proof (failed_pass_changes_nothing _ _ _ _ _ _ H Hn) as E. unfold core in E.
+  destruct w', w. unfold set_faults. simpl in *. injection E as -> -> -> -> -> -> -> -> -> ->. reflexivity.
+Qed.
+
+(** any number of such passes: the first pass in which a call succeeds starts from the world
+    the failures found, with fewer failures to come - failures leave nothing behind *)
+From Furiko Require Import Proofs.CacheP.
+Fixpoint all_failed (cfg : jcfg) (n : nat) (w : jworld) : Prop :=
+  match n with
+  | O => True
+  | S k => existsb changes (snd (fst (fst (sync_one cfg w)))) = false /\ all_failed cfg k (pass cfg w)
+  end.
+
+Theorem failed_passes_leave_the_world cfg n : forall w, all_failed cfg n w -> exists fl, iter_pass cfg n w = set_faults w fl.
+Proof.
+  induction n as [|n IH]; intros w H.
+  - exists (faults w). simpl. now destruct w.
+  - destruct H as [H1 H2]. simpl. destruct (IH _ H2) as (fl & E). exists fl. rewrite E.
+    unfold pass in *. destruct (sync_one cfg w) as [[[w' acts] ok] armed] eqn:Es. simpl in *.
+    rewrite (failed_pass_world _ _ _ _ _ _ Es H1). reflexivity.
+Qed.
+
+Lemma iter_pass_add cfg n m : forall w, iter_pass cfg (n + m) w = iter_pass cfg m (iter_pass cfg n w).
+Proof. induction n as [|n IH]; intros w; simpl; [reflexivity|apply IH]. Qed.
+
+(** the same outcome as without the failures: if the first n passes failed entirely and the
+    injected failures are used up, everything that follows is what follows from the original
+    world with no failure injected *)
+Theorem failed_burst_same_outcome cfg n m w :
+  all_failed cfg n w -> faults (iter_pass cfg n w) = [] ->
+  iter_pass cfg (n + m) w = iter_pass cfg m (set_faults w []).
+Proof.
+  intros H Hf. rewrite iter_pass_add. destruct (failed_passes_leave_the_world cfg n w H) as (fl & E).
+  rewrite E in Hf |- *. simpl in Hf. now rewrite Hf.
 Qed.
